@@ -54,6 +54,10 @@ const (
 	midDur    = 80 * time.Millisecond
 	midSleep  = 130 * time.Millisecond
 	midGuard  = 40 * time.Millisecond
+	// staggered offers: how often, and for how long the best-ranked free
+	// workers stay away from their job channels
+	staggerPct = 40
+	staggerDur = 3 * time.Millisecond
 	hugeDur   = time.Hour
 	maxPeers  = 4
 	errOther  = "other"
@@ -99,11 +103,15 @@ type rankW struct {
 	quit    chan struct{}
 }
 
+// note records the score the ranking effectively uses for p after a call that
+// names p: its entry, or the default when it has none.
 func (r *rankW) note(p string) {
 	r.mu.Lock()
-	if s, ok := query.VerifScore(r.inner, p); ok {
-		r.score[p] = s
+	s, ok := query.VerifScore(r.inner, p)
+	if !ok {
+		s = 4
 	}
+	r.score[p] = s
 	r.mu.Unlock()
 }
 func (r *rankW) AddPeer(p string)      { r.inner.AddPeer(p); r.note(p) }
@@ -182,6 +190,8 @@ type caseRun struct {
 	// a free worker was made to exit while the dispatcher was about to offer
 	// it the head job (a hang after that is reported with this tag)
 	exitedWhileOffered bool
+	// no shutdown before the case's churn burst has happened
+	holdQuit bool
 }
 
 func (c *caseRun) hangObs() string {
@@ -293,31 +303,116 @@ func (c *caseRun) handleOffer(oc orderCall, quitting bool) {
 			rest = append(rest, w)
 		}
 	}
-	if len(rest) > 0 && !c.stopped && c.rng.Intn(100) < 2 {
+	if len(rest) > 0 && !c.stopped && !c.holdQuit && c.rng.Intn(100) < 2 {
 		c.quitInOffer = true
 		resume()
 		c.t.Hit("quit.while-offering")
 		c.doQuit()
 		return
 	}
-	resume()
+	// "free by the dispatcher's bookkeeping" is not "receiving on its job
+	// channel": a real worker that has just delivered a result needs a moment
+	// to get back to its idle select.  In a staggered offer the best-ranked
+	// free workers are in that state for a controlled moment while every
+	// worse-ranked free worker is already parked at its channel; the
+	// dispatcher must wait for the best-ranked one (or its exit).
+	score := map[int]uint64{}
+	for i, a := range oc.peers {
+		score[addrID(a)] = oc.scores[i]
+	}
+	var late, early []*workerT
+	if len(rest) >= 2 {
+		best := score[rest[0].id]
+		for _, w := range rest {
+			if score[w.id] < best {
+				best = score[w.id]
+			}
+		}
+		for _, w := range rest {
+			if score[w.id] == best {
+				late = append(late, w)
+			} else {
+				early = append(early, w)
+			}
+		}
+	}
+	if len(early) == 0 || c.rng.Intn(100) >= staggerPct {
+		late, early = nil, nil
+	}
+	var w *workerT
+	var job query.VerifJob
+	taken := false
+	if len(early) > 0 {
+		var ids []string
+		for _, lw := range late {
+			ids = append(ids, strconv.Itoa(lw.id))
+		}
+		c.emit("notrecv "+strings.Join(ids, " "), "-")
+		c.t.Hit("offer.best-ranked-not-yet-receiving")
+		type got struct {
+			w *workerT
+			j query.VerifJob
+		}
+		gotCh := make(chan got, len(early))
+		abort := make(chan struct{})
+		var wg sync.WaitGroup
+		for _, ew := range early {
+			ew := ew
+			wg.Add(1)
+			go func() {
+				defer wg.Done()
+				if j, ok := ew.w.Take(abort); ok {
+					gotCh <- got{ew, j}
+				}
+			}()
+		}
+		// let the takers park at their channels before the dispatcher goes on
+		for i := 0; i < 4; i++ {
+			runtime.Gosched()
+		}
+		time.Sleep(200 * time.Microsecond)
+		resume()
+		var g *got
+		select {
+		case x := <-gotCh:
+			g = &x
+		case <-time.After(staggerDur):
+		}
+		close(abort)
+		wg.Wait()
+		if g == nil {
+			select {
+			case x := <-gotCh:
+				g = &x
+			default:
+			}
+		}
+		if g != nil {
+			w, job, taken = g.w, g.j, true
+			c.t.Hit("offer.taken-by-worse-ranked")
+		}
+	} else {
+		resume()
+	}
 	if len(rest) == 0 {
 		return
 	}
-	// the dispatcher now blocks offering the head job to one of `rest`
-	cases := make([]reflect.SelectCase, 0, len(rest)+1)
-	for _, w := range rest {
-		cases = append(cases, reflect.SelectCase{Dir: reflect.SelectRecv, Chan: reflect.ValueOf(w.w.JobChan())})
+	if !taken {
+		// the dispatcher now blocks offering the head job to one of `rest`
+		cases := make([]reflect.SelectCase, 0, len(rest)+1)
+		for _, w := range rest {
+			cases = append(cases, reflect.SelectCase{Dir: reflect.SelectRecv, Chan: reflect.ValueOf(w.w.JobChan())})
+		}
+		cases = append(cases, reflect.SelectCase{Dir: reflect.SelectRecv, Chan: reflect.ValueOf(time.After(watchdog))})
+		i, v, _ := reflect.Select(cases)
+		if i == len(rest) {
+			c.emit("accept 0", c.hangObs())
+			c.hung = true
+			return
+		}
+		w = rest[i]
+		job = query.WrapJobValue(v.Interface())
 	}
-	cases = append(cases, reflect.SelectCase{Dir: reflect.SelectRecv, Chan: reflect.ValueOf(time.After(watchdog))})
-	i, v, _ := reflect.Select(cases)
-	if i == len(rest) {
-		c.emit("accept 0", c.hangObs())
-		c.hung = true
-		return
-	}
-	w := rest[i]
-	job := query.WrapJobValue(v.Interface())
 	w.held = &job
 	id, ok := c.reqs[job.Request()]
 	if !ok {
@@ -611,6 +706,22 @@ func (c *caseRun) doResult(w *workerT, kind string) {
 	c.barrier()
 }
 
+// doChurn: n short-lived peers with addresses never seen before connect and go
+// away again, one after the other, while the long-lived peers stay connected.
+func (c *caseRun) doChurn(first, n int) {
+	c.t.Hit("ev.churn-burst")
+	for k := 0; k < n && !c.hung && !c.stopped && !c.skewed; k++ {
+		id := first + k
+		c.doPeer(id)
+		if c.hung || c.stopped {
+			return
+		}
+		if w := c.workers[id]; w != nil && !w.exited {
+			c.exitWorker(w, "ev.exit.churn")
+		}
+	}
+}
+
 func (c *caseRun) doWake(b, g int) {
 	c.begin(fmt.Sprintf("wake %d %d", b, g))
 	if !query.VerifWake(c.wm, uint64(b), uint64(g)) {
@@ -645,7 +756,7 @@ func (c *caseRun) final() {
 
 // ---- generator ---------------------------------------------------------
 
-func runCase(t *sink, idx int, rng *rand.Rand, steps int, allowMid bool) (hung bool) {
+func runCase(t *sink, idx int, rng *rand.Rand, steps int, allowMid bool, churn int) (hung bool) {
 	t.line("case %d", idx)
 	c := &caseRun{t: t, rng: rng, workers: map[int]*workerT{}, reqs: map[*query.Request][2]int{},
 		peerCh: make(chan query.Peer), allowMid: allowMid}
@@ -669,7 +780,20 @@ func runCase(t *sink, idx int, rng *rand.Rand, steps int, allowMid bool) (hung b
 
 	usedMid := false
 	lateLeft := rng.Intn(3)
+	churnAt := -1
+	if churn > 0 {
+		// peer churn at scale: the burst comes once some peers have earned a
+		// record, and enough events follow for the records to show
+		steps += 30
+		churnAt = steps / 2
+		c.holdQuit = true
+	}
 	for i := 0; i < steps && !c.hung && !c.skewed; i++ {
+		if i == churnAt && !c.stopped {
+			c.doChurn(1000, churn)
+			c.holdQuit = false
+			continue
+		}
 		if c.stopped {
 			if lateLeft == 0 {
 				break
@@ -776,7 +900,7 @@ func runCase(t *sink, idx int, rng *rand.Rand, steps int, allowMid bool) (hung b
 			}
 		case r < 96 && len(liveW) > 0:
 			c.exitWorker(liveW[rng.Intn(len(liveW))], "ev.exit")
-		case r < 97:
+		case r < 97 && !c.holdQuit:
 			c.doQuit()
 		}
 	}
@@ -803,9 +927,15 @@ func runCase(t *sink, idx int, rng *rand.Rand, steps int, allowMid bool) (hung b
 
 // caseParams derives everything random about case idx from the seed alone, so
 // that a restarted child continues with the same cases.
-func caseParams(idx, n, mid int) (*rand.Rand, int, bool) {
+func caseParams(idx, n, mid int) (*rand.Rand, int, bool, int) {
 	rng := tr.Rng(int64(12 + 7919*(idx+1)))
-	return rng, 8 + rng.Intn(40), idx%(n/(3*mid)+1) == 0
+	steps, allowMid := 8+rng.Intn(40), idx%(n/(3*mid)+1) == 0
+	churn := 0
+	if idx%100 == 50 {
+		// a few cases per run: well over a hundred distinct short-lived addresses
+		churn = 130 + rng.Intn(220)
+	}
+	return rng, steps, allowMid, churn
 }
 
 func sizes(thorough bool) (n, mid int) {
@@ -836,8 +966,8 @@ func child(_ *tr.W, thorough bool) {
 	n, mid := sizes(thorough)
 	hung := 0
 	for idx := from; idx < to; idx++ {
-		rng, steps, allowMid := caseParams(idx, n, mid)
-		if runCase(o, idx, rng, steps, allowMid) {
+		rng, steps, allowMid, churn := caseParams(idx, n, mid)
+		if runCase(o, idx, rng, steps, allowMid, churn) {
 			// the dispatcher of that case is stuck for good (its goroutines are
 			// left behind); a few of those settle the verdict
 			if hung++; hung >= maxHungCases {
@@ -846,6 +976,33 @@ func child(_ *tr.W, thorough bool) {
 			}
 		}
 	}
+}
+
+// panicSite names the function in which a goroutine panicked: the first frame
+// of the trace that follows the panic line which is neither the runtime's nor
+// panic() itself, without its arguments.
+func panicSite(lines []string) string {
+	seen := false
+	for _, l := range lines {
+		if strings.HasPrefix(l, "goroutine ") {
+			if seen {
+				break
+			}
+			seen = true
+			continue
+		}
+		if !seen || l == "" || strings.HasPrefix(l, "\t") || strings.HasPrefix(l, " ") {
+			continue
+		}
+		if strings.HasPrefix(l, "panic(") || strings.HasPrefix(l, "runtime.") || strings.HasPrefix(l, "[signal") {
+			continue
+		}
+		if i := strings.LastIndex(l, "("); i > 0 {
+			l = l[:i]
+		}
+		return l
+	}
+	return ""
 }
 
 // Run is the driver entry point (parent): it re-executes this binary as
@@ -860,7 +1017,7 @@ func Run(t *tr.W, thorough bool) {
 		panic(err)
 	}
 	defer os.RemoveAll(dir)
-	crashes := 0
+	crashes, silent, silentAt := 0, 0, -1
 	for from := 0; from < n; {
 		outPath := fmt.Sprintf("%s/child-%d.trace", dir, from)
 		cmd := exec.Command(os.Args[0], "dispchild", outPath+".unused")
@@ -924,14 +1081,50 @@ func Run(t *tr.W, thorough bool) {
 		if werr == nil && !killed {
 			break
 		}
-		crashes++
-		msg := "child process died"
-		for _, l := range strings.Split(stderr.String(), "\n") {
+		// Why did the child end?  A panic or a fatal error of the Go runtime
+		// (concurrent map access, nil dereference, deadlock, out of memory)
+		// always announces itself on stderr; a child that ends with neither
+		// was terminated from outside or ran into a limit of the harness's
+		// own environment (signal, OOM killer, a stray kill on a shared
+		// machine).  That is not an observation of the code under test: the
+		// cases are a function of the seed alone, so the case it was at is
+		// simply run again in a fresh child, and only a second silent death
+		// at the very same case is reported.
+		msg, diag := "child process died", false
+		errLines := strings.Split(stderr.String(), "\n")
+		for i, l := range errLines {
 			if strings.HasPrefix(l, "panic:") || strings.HasPrefix(l, "fatal error:") {
-				msg = strings.TrimSpace(l)
+				msg, diag = strings.TrimSpace(l), true
+				if fn := panicSite(errLines[i+1:]); fn != "" {
+					msg += " [in " + fn + "]"
+				}
 				break
 			}
 		}
+		diedAt := last + 1
+		if open {
+			diedAt = last
+		}
+		if !killed && !diag {
+			silent++
+			if silentAt != diedAt {
+				silentAt = diedAt
+				t.Line("# child process ended (%v) with no Go panic or fatal-error message at case index %d (event in flight: %q); "+
+					"not an observation of the code under test, the case is run again", werr, diedAt, inflight)
+				t.Hit("child.ended-silently-rerun")
+				if silent >= 5 {
+					// the environment keeps killing the child: this run cannot say anything
+					t.Close()
+					fmt.Fprintf(os.Stderr, "dispatcher driver: child process ended %d times without a diagnostic (last: %v); giving up\n", silent, werr)
+					os.Exit(3)
+				}
+				from = diedAt
+				continue
+			}
+			msg = fmt.Sprintf("child process died twice at this very case without a Go panic message (%v)", werr)
+			t.Hit("child.ended-silently-twice")
+		}
+		crashes++
 		if open {
 			t.Case("disp idx %d", last)
 			for _, l := range buf {
@@ -954,5 +1147,131 @@ func Run(t *tr.W, thorough bool) {
 			t.Line("# giving up after %d crashes", crashes)
 			break
 		}
+	}
+	rankCases(t, thorough)
+}
+
+// rankCases drives the stock ranking (query.NewPeerRanking) on its own: a few
+// long-lived addresses earn records through Reward / Punish / ResetRanking,
+// bursts of AddPeer for addresses never seen before (peer churn; the work
+// manager calls AddPeer for every peer that connects and is never told about
+// a disconnect) come in between, Order is asked about the long-lived ones.
+func rankCases(t *tr.W, thorough bool) {
+	n := 16 * tr.EnvInt("VERIF_BUDGET", 1)
+	if thorough {
+		n *= 10
+	}
+	if os.Getenv("VERIF_SEARCH") != "" {
+		n = 3 * 16
+	}
+	for i := 0; i < n; i++ {
+		rng := tr.Rng(int64(9001 + 17*i))
+		t.Case("rank")
+		rk := query.NewPeerRanking()
+		guard := func(op string, f func() string) {
+			defer func() {
+				if r := recover(); r != nil {
+					t.Op(op, "PANIC in the ranking")
+				}
+			}()
+			t.Op(op, f())
+		}
+		addr := func(p int) string { return fmt.Sprintf("p%d", p) }
+		long := 2 + rng.Intn(4)
+		fresh, distinct := 1000, map[int]bool{}
+		call := func(name string, p int, f func(string)) {
+			guard(fmt.Sprintf("%s %d", name, p), func() string { f(addr(p)); return "-" })
+			t.Hit("rank." + name)
+		}
+		order := func(ps []int) {
+			as := make([]string, len(ps))
+			var in []string
+			for k, p := range ps {
+				as[k] = addr(p)
+				in = append(in, strconv.Itoa(p))
+			}
+			guard("order "+strings.Join(in, " "), func() string {
+				rk.Order(as)
+				var out []string
+				for _, a := range as {
+					out = append(out, strconv.Itoa(addrID(a)))
+				}
+				return strings.Join(out, " ")
+			})
+			t.Hit("rank.order")
+		}
+		burst := func(k int) {
+			if k <= 0 {
+				return
+			}
+			guard(fmt.Sprintf("churn %d %d", fresh, k), func() string {
+				for j := 0; j < k; j++ {
+					rk.AddPeer(addr(fresh + j))
+				}
+				return "-"
+			})
+			fresh += k
+			t.Hit("rank.churn-burst")
+			if fresh-1000+len(distinct) > 128 {
+				t.Hit("rank.churn-over-128-addresses")
+			}
+		}
+		some := func() []int {
+			ps := rng.Perm(long)
+			k := 2 + rng.Intn(long-1)
+			out := make([]int, 0, k+1)
+			for _, p := range ps[:k] {
+				out = append(out, p+1)
+			}
+			if rng.Intn(5) == 0 {
+				// an address the ranking was never told about counts as default
+				out = append(out, 900+rng.Intn(5))
+				rng.Shuffle(len(out), func(a, b int) { out[a], out[b] = out[b], out[a] })
+			}
+			return out
+		}
+		step := func() {
+			p := 1 + rng.Intn(long)
+			switch r := rng.Intn(100); {
+			case r < 12:
+				distinct[p] = true
+				call("add", p, rk.AddPeer)
+			case r < 42:
+				call("reward", p, rk.Reward)
+			case r < 66:
+				call("punish", p, rk.Punish)
+			case r < 70:
+				call("reset", p, rk.ResetRanking)
+			case r < 78:
+				burst(1 + rng.Intn(6))
+			default:
+				order(some())
+			}
+		}
+		for p := 1; p <= long; p++ {
+			if rng.Intn(6) != 0 {
+				distinct[p] = true
+				call("add", p, rk.AddPeer)
+			}
+		}
+		for k, m := 0, 6+rng.Intn(14); k < m; k++ {
+			step()
+		}
+		// the big burst: usually far beyond a hundred addresses, sometimes
+		// right around 128 in total
+		switch rng.Intn(4) {
+		case 0:
+			burst(128 - len(distinct) - (fresh - 1000) - 1 + rng.Intn(4))
+		default:
+			burst(130 + rng.Intn(400))
+		}
+		for k, m := 0, 8+rng.Intn(16); k < m; k++ {
+			step()
+		}
+		all := rng.Perm(long)
+		for k := range all {
+			all[k]++
+		}
+		order(all)
 	}
 }
